@@ -110,7 +110,8 @@ def downgrade(data, v):
         for i in ('bfgdir', 'srcdir', 'builddir'):
             d[i] = d[i][:2]
         for i in d['install_dirs']:
-            d['install_dirs'][i] = d['install_dirs'][i][:2]
+            if d['install_dirs'][i] is not None:
+                d['install_dirs'][i] = d['install_dirs'][i][:2]
     if v < 10:
         d['install_dirs'].pop('exec_prefix')
         for i in ('bindir', 'libdir'):
@@ -137,6 +138,8 @@ def representable(cfg, v):
         return False
     if v < 11 and cfg['destdir_dirs']:
         return False
+    if v < 12 and cfg.get('cross'):
+        return False       # one platform only
     return True
 
 
@@ -193,12 +196,20 @@ def roundtrips(ck, n):
             toolchain = rnd.random() < 0.4
             if toolchain:
                 env.toolchain.path = Path('/tc/file.bfg', Root.absolute)
+            # a third of the configurations are cross-compilations to a
+            # platform without a default prefix (install directories that
+            # are not set are part of the configuration too)
+            if i % 3 == 2:
+                from bfg9000.platforms import target as _target
+                env.target_platform = _target.platform_info('winnt')
+                idirs.pop(InstallRoot.prefix, None)
             cfg = {'compdb': rnd.random() < 0.7,
                    'library_mode': rnd.choice([[True, False], [False, True],
                                                [True, True]]),
                    'extra_args': rnd.choice([[], [], ['--foo', 'a b']]),
                    'mopack': [], 'toolchain': toolchain,
-                   'changed_vars': changed, 'destdir_dirs': False}
+                   'changed_vars': changed, 'destdir_dirs': False,
+                   'cross': i % 3 == 2}
             env.finalize(idirs, cfg['library_mode'], cfg['compdb'],
                          cfg['extra_args'])
             want = env_projection(env)
